@@ -18,6 +18,7 @@ import (
 	"github.com/atlassian/gostatsd/pkg/transport"
 
 	"verif/mon"
+	"verif/netx"
 )
 
 // The socket backends with their PRODUCTION dialer (built by backends.InitBackend from configuration
@@ -55,7 +56,7 @@ type loopServer struct {
 func (s *loopServer) listen() error {
 	addr := s.addr
 	if addr == "" {
-		addr = "127.0.0.1:0"
+		addr = netx.IP() + ":0" // the listener is stopped and re-opened on the same port: own loopback address
 	}
 	ln, err := net.Listen("tcp", addr)
 	if err != nil {
